@@ -170,6 +170,8 @@ def nt_C19(ins, outs):
 # ---- C16 ---------------------------------------------------------------------
 def _c16_ops(ins):
     v = [int(x) for x in ins]
+    if v[0] == -1:
+        return [[0]] * v[1] + [[1]] * v[1] + [[0]] * v[2]
     i, ops = 2, []
     for _ in range(v[1]):
         n = v[i]
@@ -186,6 +188,8 @@ def sig_C16(ins, outs):
             if o[0] == 0 and o[2] == 0:
                 ntags = max(ntags, 1)
         kinds = "".join("IRS"[o[0]] for o in ops)
+        if ins[0] == "-1":
+            return "C16:concurrent-issue"
         return "C16:retry-token" if "R" in kinds else "C16:token"
     except Exception:
         return "C16:?"
@@ -210,7 +214,9 @@ def dist_C16(cases):
         for o in ops:
             d[["issue", "rollback", "success"][o[0]]] += 1
         d["rejected"] += outs.count("-1")
-        if int(ins[0]) < 500:
+        if ins[0] == "-1":
+            d["concurrent_rounds"] = d.get("concurrent_rounds", 0) + 1
+        elif int(ins[0]) < 500:
             d["small_lru"] += 1
     return d
 
